@@ -48,6 +48,40 @@ def gen_search(tmp):
     g.add(t, i)
     t, i = c2g.translate_function(c2g.find_function(objs, "sc_search_lower_bound64"), arrays=("array",))
     g.add(t, i)
+    objs = c2g.clang_ast(f, "sc_bsearch_range", incs(tmp))
+
+    def strip(n):
+        n = c2g.skip_parens(n)
+        while n.get("kind") in ("ImplicitCastExpr", "CStyleCastExpr"):
+            n = c2g.skip_parens(n["inner"][0])
+        return n
+
+    def compar_hook(T, node, env):
+        """compar (ckey, cbase + X * size) -> cmp_ke X ; compar (cbase + X * size, ckey) -> cmp_ek X"""
+        kinds = []
+        for a in node["inner"][1:]:
+            a = strip(a)
+            if a.get("kind") == "DeclRefExpr" and a["referencedDecl"]["name"] in ("ckey", "key"):
+                kinds.append(("key", None))
+            elif a.get("kind") == "BinaryOperator" and a.get("opcode") == "+" and \
+                    strip(a["inner"][0]).get("referencedDecl", {}).get("name") in ("cbase", "base"):
+                mul = strip(a["inner"][1])
+                if mul.get("kind") != "BinaryOperator" or mul.get("opcode") != "*" or \
+                        strip(mul["inner"][1]).get("referencedDecl", {}).get("name") != "size":
+                    raise c2g.Unsupported("compar argument is not base + index * size")
+                kinds.append(("elem", T.expr(mul["inner"][0], env)))
+            else:
+                raise c2g.Unsupported("compar argument shape " + str(a.get("kind")))
+        if [k for k, _ in kinds] == ["key", "elem"]:
+            return c2g.E("cmp_ke %s" % kinds[1][1].z())
+        if [k for k, _ in kinds] == ["elem", "key"]:
+            return c2g.E("cmp_ek %s" % kinds[0][1].z())
+        raise c2g.Unsupported("compar call shape")
+
+    t, i = c2g.translate_function(c2g.find_function(objs, "sc_bsearch_range"), call_hooks={"compar": compar_hook},
+                                  extra_params=[("cmp_ke", "Z -> Z"), ("cmp_ek", "Z -> Z")],
+                                  skip_params=("key", "base", "size", "compar"))
+    g.add(t, i)
     return g, [f]
 
 
